@@ -310,15 +310,7 @@ Check cadd_csub_rounding_bound : forall z w : cplx AF,
 Print Assumptions cadd_csub_rounding_bound.
 Print Assumptions cplx_ext. (* closed; ends the axiom list above for the audit's output parser *)
 Example cadd_csub_rounding_bound_nonvacuous : in_range (FR (FloatInst.fz false 3 (-1)) + FR (FloatInst.fz false 3 0)).
-Proof.
-  assert (E : (FR (FloatInst.fz false 3 (-1)) + FR (FloatInst.fz false 3 0) = 4.5)%R).
-  { assert (E1 : FR (FloatInst.fz false 3 (-1)) = 1.5%R) by fr_eval.
-    assert (E2 : FR (FloatInst.fz false 3 0) = 3%R) by fr_eval. rewrite E1, E2. lra. }
-  rewrite E. apply in_range_of_bounds. rewrite Rabs_pos_eq by lra.
-  assert (B0 : (bpow radix2 (-1022) <= bpow radix2 0)%R) by (apply bpow_le; lia).
-  assert (B1 : (bpow radix2 3 <= bpow radix2 1023)%R) by (apply bpow_le; lia).
-  change (bpow radix2 0) with 1%R in B0. assert (P3 : bpow radix2 3 = 8%R) by (cbn; lra). lra.
-Qed.
+Proof. exact cadd_csub_rounding_bound_nonvacuous_lemma. Qed.
 
 Theorem abs_sqr_cmul_r_rounding_bound : forall (z : cplx AF) (r : AF),
   let a := FR (re z) in let b := FR (im z) in let s := FR r in
@@ -346,15 +338,7 @@ Print Assumptions cplx_ext. (* closed; ends the axiom list above for the audit's
 Example abs_sqr_cmul_r_rounding_bound_nonvacuous :
   let a := FR (FloatInst.fz false 3 (-1)) in let b := FR (FloatInst.fz true 1 (-1)) in
   in_range (a * a) /\ in_range (b * b) /\ in_range (a * b).
-Proof.
-  cbn zeta. assert (E1 : FR (FloatInst.fz false 3 (-1)) = 1.5%R) by fr_eval.
-  assert (E2 : FR (FloatInst.fz true 1 (-1)) = (-0.5)%R) by fr_eval. rewrite E1, E2.
-  assert (B0 : (bpow radix2 (-1022) <= bpow radix2 (-2))%R) by (apply bpow_le; lia).
-  assert (B1 : (bpow radix2 2 <= bpow radix2 1023)%R) by (apply bpow_le; lia).
-  assert (Pm2 : bpow radix2 (-2) = (/ 4)%R) by (cbn; lra). assert (P2 : bpow radix2 2 = 4%R) by (cbn; lra).
-  repeat split; apply in_range_of_bounds;
-    (rewrite Rabs_pos_eq by lra) || (rewrite Rabs_left by lra); lra.
-Qed.
+Proof. exact abs_sqr_cmul_r_rounding_bound_nonvacuous_lemma. Qed.
 
 (* the quotient as the code computes it, den = fl(fl(cc)+fl(dd)), (fl(fl(fl(ac)+fl(bd))/den), fl(fl(fl(bc)-fl(ad))/den)):
    normwise  |fl(z/w) - z/w|^2 <= 2 kappa^2 |z|^2/|w|^2 ,  kappa = (2g + u(1+g))/(1-g), g = 2u + u^2  (about 7.1 u |z|/|w|) *)
